@@ -454,4 +454,9 @@ func vStackingOrder() (n int, fails []string) {
 //@   call NewStackingContextFromBox#1 assert[real-context] arg0 == box && arg2 == nil && ((style.GetPosition().String != "static" && style.GetZIndex().String != "auto") || style.GetOpacity() < 1 || len(style.GetTransform()) != 0 || style.GetOverflow() != "visible")
 //@   call NewStackingContextFromBox#2 assert[positioned-auto] arg0 == box && arg2 == childContexts && style.GetPosition().String != "static" && style.GetZIndex().String == "auto" && index == len(*childContexts)
 //@   call insertStackingContext#1 assert[tree-order] arg1 == index
+//@   let real = (style.GetPosition().String != "static" && style.GetZIndex().String != "auto") || style.GetOpacity() < 1 || len(style.GetTransform()) != 0 || style.GetOverflow() != "visible"
+//@   call NewStackingContextFromBox#2 assert[otherwise-not-a-real-context] !real
+//@   call NewStackingContextFromBox#3 assert[otherwise-not-a-real-context] !real
+//@   call NewStackingContextFromBox#4 assert[inline-block-in-place] !real && style.GetPosition().String == "static" && arg0 == box && arg2 == childContexts
+//@   call dispatchChildren#1 assert[plain-box] !real && style.GetPosition().String == "static" && arg0 == box
 //@   call NewStackingContextFromBox#3 assert[float] arg0 == box && arg2 == childContexts && style.GetPosition().String == "static" && callresult(IsFloated, 1)
